@@ -26,7 +26,7 @@ def main(argv):
     quick = tier == "quick"
     exe = driver.harness("h_resync", "sched-asan")
     n = 16
-    jobs = [(exe, ["mode=filler", "maxlen=%d" % (7 if quick else 9), "splitlen=%d" % (3 if quick else 4), "shard=%d/%d" % (i, n)]) for i in range(n)]
+    jobs = [(exe, ["mode=filler", "maxlen=%d" % (8 if quick else 9), "splitlen=%d" % (3 if quick else 4), "shard=%d/%d" % (i, n)]) for i in range(n)]
     jobs += [(exe, ["mode=unknown", "shard=%d/%d" % (i, n)]) for i in range(n)]
     jobs += [(exe, ["mode=session", "maxlen=%d" % (3 if quick else 4), "shard=%d/4" % i]) for i in range(4)]
     res = enumcheck.run_jobs(jobs, timeout=1500)
